@@ -298,9 +298,12 @@ def dsqrt (ws : List String) : String :=
     let names := hexList names
     let descs := hexList descs
     let ds := hexList dsq
+    let raw := arg? ws "writer" == some "raw"
+    let accs := if raw then hexList ((arg? ws "accs").getD "-") else names.map fun _ => []
+    let taxids : List Int := if raw then (((arg? ws "taxids").getD "").splitOn ",").filterMap String.toInt? else []
     let amino := abc == "amino"
     let packs := ds.map fun d => if amino then pack5 d else pack2 d
-    let metas := (names.zip descs).map fun (n, d) => n.length + 1 + 1 + d.length + 1 + 4
+    let metas := (names.zip (accs.zip descs)).map fun (n, a, d) => n.length + 1 + a.length + 1 + d.length + 1 + 4
     let idx := indexOf ((packs.map List.length).zip metas) 0 0
     match loaderChunks maxseq maxpacket (idx.length + 1) (LState.init idx) with
     | none => "fault"
@@ -316,9 +319,9 @@ def dsqrt (ws : List String) : String :=
       if !ok then "fault" else
       let h := (List.range seqs.length).foldl (fun h i =>
           let h := fnvBytes h (names.getD i []); let h := fnvByte h 0
-          let h := fnvByte h 0                                   -- empty accession
+          let h := fnvBytes h (accs.getD i []); let h := fnvByte h 0
           let h := fnvBytes h (descs.getD i []); let h := fnvByte h 0
-          let h := fnvNat h (2^64 - 1)                            -- taxid -1 (as int64)
+          let h := fnvNat h ((taxids.getD i (-1)) % (2^64 : Int)).toNat   -- taxid as two's-complement int64
           let d := seqs.getD i []
           let h := fnvNat h d.length
           fnvBytes h d) fnv0
